@@ -1,13 +1,19 @@
 import DnsVerif.Props.C11
 import DnsVerif.Props.C06
+import DnsVerif.Lemmas.RTEmbedAll
+import DnsVerif.Lemmas.RTElem
 
-/-! # C10 — stand-alone element codecs agree with the message codec (part 1: flags, codes, names)
+/-! # C10 — stand-alone element codecs agree with the message codec
 
 Part 1: the elements whose codecs are closed under the theorems that exist: header flags (all values with
 a 4-bit rcode), the four two-octet codes (all 65,536 values), names (from the empty encoder = the
 stand-alone `DomainName::encode`). In the model the struct-level `encode()` wrappers and `RR::encode` are
 the same function on a fresh encoder (`encodeRR`), which the `enc.struct` / `enc.rr` streams check against
-the crate. Part 2 (questions, records, embedding into a message) follows from C05 part 2. -/
+the crate. Part 2: questions and records round-trip through their own codec pair (every one of the 46
+record types), and a record's stand-alone bytes are exactly what it occupies as the first record of a
+message whenever the stand-alone encoding contains no pointer (`b.length = rr.usize`); when it does contain
+a pointer the in-message bytes differ by the shift of pointer offsets (example at the end of
+Lemmas/RTEmbed.lean), which the correspondence run checks on the crate with a pointer-shift oracle. -/
 
 namespace C10
 
@@ -30,5 +36,22 @@ theorem name_roundtrip {e' : Enc} {n : Name} (hwf : wfName n) (hutf : ∀ l ∈ 
   obtain ⟨n', hops, hlow, _, hall⟩ := C06.encName_transparent Reach.init hwf hutf hsz h
   have := (hall e'.out e'.out.length 0 (Agree.refl _ _) (Nat.le_refl _) (Nat.le_refl _) hB).2
   exact ⟨n', _, hlow, by simpa [decodeName, D.main] using this⟩
+
+/-! ## Records, questions, embedding -/
+
+theorem rr_roundtrip {rr : RR} {b : Bytes} (hwf : WfRR rr) (h : encodeRR rr = .ok b) :
+    ∃ rr' d, decodeRR b = .ok (rr', d) ∧ rr'.norm = rr.norm ∧ d.off = b.length := RT.rr_roundtrip hwf h
+
+theorem question_roundtrip {q : Question} {b : Bytes} (hwf : WfQuestion q) (h : encodeQuestion q = .ok b) :
+    ∃ q' d, decodeQuestion b = .ok (q', d) ∧ q'.lower = q.lower ∧ d.off = b.length := RT.question_roundtrip hwf h
+
+/-- a stand-alone name is read back exactly (no case change: nothing is compressed in a fresh encoder) -/
+theorem name_roundtrip_exact {n : Name} {b : Bytes} (hwf : WfName n) (h : encodeName n = .ok b) :
+    ∃ d, decodeName b = .ok (n, d) ∧ d.off = b.length := RT.name_roundtrip hwf h
+
+/-- the element occupies, as first record of a message, exactly its stand-alone bytes (pointer-free case; all types) -/
+theorem elem_embeds {m : Msg} {rr : RR} {rest : List RR} {b bm : Bytes} (hsm : EncLim.ShapedMsg m) (hwf : WfRR rr)
+    (hq : m.qs = []) (han : m.an = rr :: rest) (h : encodeRR rr = .ok b) (hfull : b.length = rr.usize)
+    (hm : encodeDns m = .ok bm) : ∃ tail, bm = EncLim.msgHeader m ++ b ++ tail := RT.elem_embeds hsm hwf hq han h hfull hm
 
 end C10
